@@ -7,9 +7,9 @@ package sx
 
 import (
 	"fmt"
-	"math/rand"
 	"go/token"
 	"go/types"
+	"math/rand"
 	"os"
 	"sort"
 	"strings"
@@ -68,22 +68,23 @@ type InVal struct {
 }
 
 type Stats struct {
-	Paths          int
-	Steps          int64
-	Forks          int
-	Merges         int
-	MergeAborts    int
-	Obligations    int // asserts + implicit panic checks that reached the decision stage
-	Trivial        int // decided by the simplifier alone
-	SolverUnsat    int
-	SolverSat      int
-	Inconclusive   int
-	ReachWitnesses int
-	FeasQueries    int
-	FeasByModel    int
-	Panics         int
-	MaxPC          int
-	Concretized    int
+	Paths           int
+	Steps           int64
+	Forks           int
+	Merges          int
+	MergeAborts     int
+	Obligations     int // asserts + implicit panic checks that reached the decision stage
+	Trivial         int // decided by the simplifier alone
+	SolverUnsat     int
+	SolverSat       int
+	Inconclusive    int
+	ReachWitnesses  int
+	FeasQueries     int
+	FeasByModel     int
+	Panics          int
+	MaxPC           int
+	Concretized     int
+	ExcludedByKnown int
 }
 
 type decision struct {
